@@ -107,6 +107,33 @@ def violations (svc meth : List HSpec) (req : Hdrs) : List Str :=
 
 def dispatched (svc meth : List HSpec) (req : Hdrs) : Bool := (violations svc meth req).isEmpty
 
+/-! ### what the OpenAPI document publishes (`annotations.CombineHeaders`) -/
+
+/-- the Go map keyed by the EXACT name: insert replaces. -/
+def putExact (h : HSpec) : List HSpec → List HSpec
+  | [] => [h]
+  | x :: t => if x.name = h.name then h :: t else x :: putExact h t
+
+/-- `a < b` on names, code point by code point (`sort.Strings`; header names are ASCII). -/
+def nameLt : Str → Str → Bool
+  | [], [] => false
+  | [], _ :: _ => true
+  | _ :: _, [] => false
+  | a :: as, b :: bs => a.toNat < b.toNat || (a == b && nameLt as bs)
+
+def insertByName (h : HSpec) : List HSpec → List HSpec
+  | [] => [h]
+  | x :: t => if nameLt h.name x.name then h :: x :: t else x :: insertByName h t
+
+def sortByName (l : List HSpec) : List HSpec := l.foldr insertByName []
+
+/-- `CombineHeaders`: either list alone is returned as it is; otherwise the declarations with a
+non-empty name are merged by exact name (method over service) and listed in name order. The result
+depends on the two arguments only — in particular not on the other operations of the service. -/
+def combineHeaders (svc meth : List HSpec) : List HSpec :=
+  if svc.isEmpty then meth else if meth.isEmpty then svc else
+  sortByName ((svc ++ meth).foldl (fun m h => if h.name = [] then m else putExact h m) [])
+
 /-! ### what the property demands (`Spec`) -/
 
 /-- the property's merge: a method-level declaration REPLACES the service-level one of the same
